@@ -2,14 +2,83 @@ package main
 
 import (
 	"fmt"
-	"golang.org/x/tools/go/packages"
+	"os"
+	"sort"
+	"strings"
+	"sync"
+	"time"
 )
 
 func main() {
-	cfg := &packages.Config{Mode: packages.NeedName | packages.NeedFiles | packages.NeedSyntax | packages.NeedTypes | packages.NeedTypesInfo | packages.NeedImports | packages.NeedDeps, Dir: "/repo", BuildFlags: []string{"-tags=verif"}}
-	pkgs, err := packages.Load(cfg, "./...")
-	fmt.Println(len(pkgs), err)
-	for _, p := range pkgs {
-		fmt.Println(p.PkgPath, len(p.Syntax), p.Errors)
+	defer cleanupScratch()
+	if len(os.Args) < 2 {
+		fmt.Fprintln(os.Stderr, "usage: govc funcs <key>... | check <id> <tier>")
+		os.Exit(2)
 	}
+	switch os.Args[1] {
+	case "funcs":
+		p, err := loadProg("/repo", "/verif/spec")
+		if err != nil {
+			fmt.Fprintln(os.Stderr, "ENGINE-ERROR:", err)
+			os.Exit(2)
+		}
+		keys := os.Args[2:]
+		if len(keys) == 0 {
+			for k, c := range p.spec.Contracts {
+				if !c.Assumed {
+					keys = append(keys, k)
+				}
+			}
+			sort.Strings(keys)
+		}
+		for _, k := range keys {
+			if !strings.Contains(k, "/") && !strings.HasPrefix(k, modPath) {
+				k = modPath + "." + k
+			}
+			t0 := time.Now()
+			rep := p.verifyFunc(k)
+			solveAll(rep.Obs, 10, 0, 16)
+			fmt.Printf("== %s  (%d obligations, %.1fs)\n", k, len(rep.Obs), time.Since(t0).Seconds())
+			if rep.Err != "" {
+				fmt.Println("   ERROR:", rep.Err)
+			}
+			for _, ob := range rep.Obs {
+				status := "FAIL"
+				if ob.Result != nil {
+					if ob.Result.Verdict == ob.Expect {
+						status = "ok"
+					}
+					fmt.Printf("   %-4s %-60s %s %s %.2fs  %s\n", status, ob.Name, ob.Result.Verdict, ob.Result.Solver, ob.Result.Seconds, ob.Pos)
+					if status == "FAIL" && os.Getenv("GOVC_DEBUG") != "" {
+						fmt.Println(truncate(ob.Result.Output, 3000))
+						os.WriteFile("/tmp/govc_fail_"+sanitizeIdent(ob.Name)+".smt2", []byte(ob.fx.scriptFor(ob)), 0o644)
+					}
+				}
+			}
+		}
+	}
+}
+
+func solveAll(obs []*Obligation, timeoutS, seed, par int) {
+	var wg sync.WaitGroup
+	sem := make(chan struct{}, par)
+	for _, ob := range obs {
+		wg.Add(1)
+		go func(ob *Obligation) {
+			defer wg.Done()
+			sem <- struct{}{}
+			defer func() { <-sem }()
+			if ob.Goal == "true" && ob.Expect == VUnsat {
+				ob.Result = &SolveResult{Verdict: VUnsat, Solver: "simplifier"}
+				return
+			}
+			script := ob.Script
+			if script == "" {
+				script = ob.fx.scriptFor(ob)
+			}
+			r := solve(script, timeoutS, seed, false)
+			ob.Result = &r
+		}(ob)
+	}
+	wg.Wait()
 }
